@@ -162,3 +162,34 @@ func Harness_C16_Twin(klen int) {
 	_ = set.AddKey(keys[0])
 	verif.Assert(set.AddKey(keys[1]) == nil, "twin: some second key is a duplicate")
 }
+
+// Harness_C16_GenericLocate: the hash-bucketed key set (bytes keys) with two
+// symbolic keys of klen bytes. "Same bucket, different key" is a path the
+// solver has to realise by finding an FNV-1a collision (klen >= 4) or refute.
+func Harness_C16_GenericLocate(klen int) {
+	k1, k2 := verif.Bytes(klen), verif.Bytes(klen)
+	same := string(k1) == string(k2)
+	set := NewBytesKeySet()
+	verif.Assert(set.AddKey(k1) == nil, "first key rejected")
+	orig, found := set.LocateOriginalKey(k2)
+	verif.Assert(found == same, "a key that was never added was located (or an added key was not)")
+	if found {
+		verif.Assert(string(orig) == string(k1), "located a different key")
+		verif.Cover("located")
+	}
+	if fnvOf(k1) == fnvOf(k2) && !same {
+		verif.Cover("hash-collision") // the solver produced a genuine FNV-1a collision
+	}
+	err := set.AddKey(k2)
+	verif.Assert((err != nil) == same, "duplicate detection disagrees with key equality")
+	verif.Cover("checked")
+}
+
+func fnvOf(b []byte) uint32 {
+	h := uint32(2166136261)
+	for _, c := range b {
+		h ^= uint32(c)
+		h *= 16777619
+	}
+	return h
+}
